@@ -109,3 +109,10 @@ Proof.
     try (intros j Hj; simpl in Hj; destruct j as [|[|[|j]]]; try lia; simpl; eexists; eauto 10);
     try (match goal with Hx : (0 < _ < 1)%nat |- False => lia end).
 Qed.
+
+(* ---------------------------------------------------------------- Close: success is reported only with the flag set *)
+Lemma close_nil_sets_flag_l : forall underlying_fails,
+  fst (close_model underlying_fails) = true -> snd (close_model underlying_fails) = true.
+Proof. intros [|]; vm_compute; intros H; congruence. Qed.
+Lemma close_succeeds_when_underlying_does_l : close_model false = (true, true).
+Proof. vm_compute. reflexivity. Qed.
